@@ -180,6 +180,23 @@ def _intcoord_case(rng):
                 tunit='hours', coords=[lib.show_rat(x) for x in c], edges='none', vals=[lib.show_rat(x) for x in vals], nanq=False)
 
 
+def _shortint_case(rng):
+    """a coordinate stored as a short signed integer whose steps exceed the positive range of its type (int16 -30000, 10000,
+    20000; int8 -100, 50, 100): the differences must not wrap around"""
+    cdt = rng.choice(['h', 'b'])
+    c = [Fraction(x) for x in ({'h': [-30000, 10000, 20000, 32000], 'b': [-100, 50, 100, 120]}[cdt])[:rng.randint(2, 4)]]
+    if rng.random() < 0.4:
+        c = c[::-1]
+    lo, hi = min(c), max(c)
+    vals = [rng.choice(c) for _ in range(2)] + [lo + Fraction(rng.randrange(1, 8 * int(hi - lo)), 8) for _ in range(rng.randint(2, 5))]
+    # not exactly half way between two coordinate values (a tie)
+    mids = set((a + b) / 2 for a, b in zip(c, c[1:]))
+    vals = [v for v in vals if v not in mids] or [c[0]]
+    return dict(stream='margin', method=rng.choice(['nearest', 'nearest', 'exact']), clean=rng.choice(['mask', 'none']), refhour=None,
+                prior=False, bmode=rng.choice(['ignore', 'warn', 'error']), left='none', right='none', cdtype=cdt, tz=None,
+                tunit='hours', coords=[lib.show_rat(x) for x in c], edges='none', vals=[lib.show_rat(x) for x in vals], nanq=False)
+
+
 def _t2t_case(rng):
     """the older datetime front end time2t on a file with a 'time' coordinate (minutes since a reference): ascending and
     descending axes, regular (nearest / bounds / bounds_close) or irregular (nearest) ones - also axes whose first two
@@ -228,6 +245,7 @@ def gen(rng, tier):
     for c in out:
         if str(c.get('edges', 'none'))[:2] in ('e1', 'b2') and not c.get('prior') and rng.random() < 0.2:
             c['stale'] = True
+    out += [_shortint_case(rng) for _ in range(max(4, n // 60))]
     return out
 
 
